@@ -14,16 +14,16 @@ limitations under the License.
 package ttlcache
 
 import (
+	"sync"
 	"sync/atomic"
 	"time"
 
-	"github.com/alphadose/haxmap"
 	kclock "k8s.io/utils/clock"
 )
 
 // Cache is an efficient cache with a TTL.
 type Cache[V any] struct {
-	m         *haxmap.Map[string, cacheEntry[V]]
+	m         *entryMap[V]
 	clock     kclock.WithTicker
 	stopped   atomic.Bool
 	runningCh chan struct{}
@@ -50,12 +50,7 @@ type CacheOptions struct {
 
 // NewCache returns a new cache with a TTL.
 func NewCache[V any](opts CacheOptions) *Cache[V] {
-	var m *haxmap.Map[string, cacheEntry[V]]
-	if opts.InitialSize > 0 {
-		m = haxmap.New[string, cacheEntry[V]](uintptr(opts.InitialSize))
-	} else {
-		m = haxmap.New[string, cacheEntry[V]]()
-	}
+	m := newEntryMap[V](int(opts.InitialSize))
 
 	if opts.CleanupInterval <= 0 {
 		opts.CleanupInterval = 150 * time.Second
@@ -172,4 +167,61 @@ func (c *Cache[V]) Stop() {
 type cacheEntry[V any] struct {
 	val V
 	exp time.Time
+}
+
+// entryMap is a map protected by a RWMutex, with the subset of methods the cache needs.
+// It replaces github.com/alphadose/haxmap v1.3.1, whose index is left with stale pointers when Set and Del race:
+// afterwards, sequential Set+Get on a key can miss forever, entries can survive Reset/Delete,
+// and its item counter can wrap around (which made Cleanup/Reset panic in make()).
+type entryMap[V any] struct {
+	lock  sync.RWMutex
+	items map[string]cacheEntry[V]
+}
+
+func newEntryMap[V any](size int) *entryMap[V] {
+	if size < 0 {
+		size = 0
+	}
+	return &entryMap[V]{items: make(map[string]cacheEntry[V], size)}
+}
+
+func (m *entryMap[V]) Get(key string) (cacheEntry[V], bool) {
+	m.lock.RLock()
+	v, ok := m.items[key]
+	m.lock.RUnlock()
+	return v, ok
+}
+
+func (m *entryMap[V]) Set(key string, val cacheEntry[V]) {
+	m.lock.Lock()
+	m.items[key] = val
+	m.lock.Unlock()
+}
+
+func (m *entryMap[V]) Del(keys ...string) {
+	if len(keys) == 0 {
+		return
+	}
+	m.lock.Lock()
+	for _, k := range keys {
+		delete(m.items, k)
+	}
+	m.lock.Unlock()
+}
+
+// ForEach calls fn for each entry until it returns false. fn must not call methods of the map.
+func (m *entryMap[V]) ForEach(fn func(string, cacheEntry[V]) bool) {
+	m.lock.RLock()
+	defer m.lock.RUnlock()
+	for k, v := range m.items {
+		if !fn(k, v) {
+			return
+		}
+	}
+}
+
+func (m *entryMap[V]) Len() int {
+	m.lock.RLock()
+	defer m.lock.RUnlock()
+	return len(m.items)
 }
